@@ -8,6 +8,8 @@ import (
 	"verifharness/internal/conc"
 	"verifharness/internal/rng"
 	"verifharness/internal/sup"
+
+	"github.com/couchbaselabs/rosmar"
 )
 
 func splitKind(msg string) (string, string) {
@@ -59,6 +61,13 @@ func checkpointScenario(c *sup.Ctx, r *rng.R, props []string) {
 	defer m.Close()
 	restore, _ := conc.Noise(r.U64())
 	defer restore()
+	if c.Local%3 == 2 {
+		// a clock that stands still makes every CAS the successor of the previous one, so "checkpoint+1" is always a real document
+		frozen := uint64(1_800_000_000_000_000_000) + uint64(c.Local)<<20
+		rosmar.VerifSetClock(func() uint64 { return frozen })
+		defer rosmar.VerifSetClock(nil)
+		c.Count("checkpoint_scenarios_with_frozen_clock", 1)
+	}
 	writers := 1 + r.Intn(4)
 	restarts := 3 + r.Intn(6)
 	res, msg, detail := conc.CheckpointRun(m, writers, 20+r.Intn(30), 4, restarts, r)
